@@ -319,6 +319,21 @@ pub fn gen_zst(out: &mut Out, prop: u32, tier: &str, rng: &mut Rng) {
                            Op::RemoveRow(idx, vec![DStep::Front, DStep::Len], DEnd::Drop), Op::RemoveCol(idx, vec![DStep::Back], DEnd::Drop)] {
                     emit_zst(out, prop, &[FromVecOp(c, r), op, Op::PopCol(vec![], DEnd::Drop), Op::DropArr]);
                 }
+                // iterators that do not keep their promise: a zero-sized element has no address
+                // to tell "written" from "not written", so the count is all there is
+                if idx <= 2 || idx == r.max(c) + 1 {
+                    let mut bad: Vec<Script> = vec![];
+                    if l >= 1 { let mut b = Script::honest(ids(l as usize - 1, 1)); b.claimed = l; bad.push(b); }            // one short
+                    if l >= 2 { let mut b = Script::honest(vec![]); b.claimed = l; bad.push(b); }                           // yields nothing
+                    { let mut b = Script::honest(ids(l as usize + 1, 1)); b.claimed = l; bad.push(b); }                      // one long
+                    if l >= 1 { let mut b = Script::honest(ids(l as usize, 1)); b.panic_at = Some(l / 2); bad.push(b); }     // panics midway
+                    { let mut b = Script::honest(ids(l as usize, 1)); b.panic_at = Some(l); bad.push(b); }                   // panics at the end check
+                    for b in bad {
+                        for op in [Op::InsertRow(idx, b.clone()), Op::InsertCol(idx, b.clone()), Op::PushRow(b.clone()), Op::PushCol(b.clone())] {
+                            emit_zst(out, prop, &[FromVecOp(c, r), op, Op::PopRow(vec![], DEnd::Drop), Op::DropArr]);
+                        }
+                    }
+                }
             }
         }
     }
@@ -409,6 +424,45 @@ pub fn gen_c06(out: &mut Out, tier: &str, _rng: &mut Rng) {
                             emit(out, 6, track, &ops);
                         }
                     }
+                }
+            }
+        }
+    }
+}
+
+/// shapes beyond the small exhaustive sweep: rows wider than 256 bytes (u32: 65+ columns,
+/// the 16-byte tracked type: 17+), long columns, and arrays of 4096+ elements with and
+/// without spare capacity - sizes at which buffer strategies (stack buffers in rotate,
+/// reallocation fast paths) change
+pub fn gen_large(out: &mut Out, prop: u32, tier: &str, rng: &mut Rng) {
+    let mut shapes: Vec<(u64, u64)> = vec![(70, 3), (20, 3), (3, 70), (250, 2), (33, 4)];   // (the probe suite walks at most 256 x 256)
+    let big: Vec<(u64, u64)> = if tier == "quick" { vec![(64, 64)] } else { vec![(64, 64), (16, 256), (256, 17)] };
+    shapes.extend(big.iter().copied());
+    for (c, r) in shapes {
+        let is_big = c * r >= 4096;
+        let row = |b: u32| Script::honest(ids(c as usize, b));
+        let col = |b: u32| Script::honest(ids(r as usize, b));
+        let mut ops: Vec<Op> = vec![];
+        for i in [0, 1, r / 2, r] { ops.push(Op::InsertRow(i, row(700))); }
+        for i in [0, 1, c / 2, c] { ops.push(Op::InsertCol(i, col(800))); }
+        ops.push(Op::PushRow(row(900))); ops.push(Op::PushCol(col(950)));
+        for fin in [DEnd::Drop, DEnd::Forget] {
+            for i in [0, 1, r - 1] { for st in [vec![], vec![DStep::Front, DStep::Back], vec![DStep::Nth(1), DStep::Len]] { ops.push(Op::RemoveRow(i, st, fin.clone())); } }
+            for i in [0, c / 2, c - 1] { for st in [vec![], vec![DStep::Back, DStep::Front]] { ops.push(Op::RemoveCol(i, st, fin.clone())); } }
+            ops.push(Op::PopRow(vec![DStep::Front], fin.clone())); ops.push(Op::PopCol(vec![DStep::Back], fin.clone()));
+        }
+        if is_big && tier == "quick" { ops = ops.into_iter().enumerate().filter(|(i, _)| i % 3 == (rng.below(3) as usize)).map(|(_, o)| o).collect(); }
+        for op in ops {
+            for track in [true, false] {
+                if is_big && track && tier == "quick" { continue; }
+                // exact capacity (from_vec of an exact Vec) and a buffer with spare room
+                for spare in [false, true] {
+                    if is_big && spare && tier == "quick" && rng.chance(50) { continue; }
+                    let mut h = vec![FromVecOp(c, r)];
+                    if spare { h.push(Op::Capacity(0, 2 * (c + r))); }
+                    h.push(op.clone());
+                    h.push(Op::PushRow(Script::honest(ids(if matches!(op, Op::InsertCol(..) | Op::PushCol(..)) { c + 1 } else if matches!(op, Op::RemoveCol(..) | Op::PopCol(..)) { c - 1 } else { c } as usize, 600))));
+                    emit(out, prop, track, &h);
                 }
             }
         }
